@@ -58,6 +58,14 @@ def check(ctx):
         if f is not None and any(isinstance(x, ast.Attribute) and x.attr == "desire" for x in ast.walk(f)):
             tick_for = f
     if tick_for is None:
+        alt = [n for n in ast.walk(fn) if isinstance(n, ast.For) and any(
+            isinstance(x, ast.Attribute) and x.attr == "desire" for x in ast.walk(n))]
+        if alt:
+            ctx.bad("T2-sweep", alt[0], "for %s in %s: ... send(tasker.desire)" % (src(alt[0].target), src(alt[0].iter)),
+                    "the tick loop iterates over a copy instead of popping `ready` one entry at a time: when the tick ends "
+                    "early (exception from an action, keyboard interrupt) the taskers that have not run yet are not in "
+                    "`ready`, so the abort sweep in the finally clause never aborts them")
+            return
         raise AnchorError("Skedder.run: tick loop not found")
     hdr = [n for n in cfg.nodes if n.kind == "for" and n.ast is tick_for][0]
     body_ids = {n.id for n in V.body_nodes(tick_for)}
